@@ -25,7 +25,8 @@ RULE = (
     'XORIG/YORIG/XCELL/YCELL multiples of 1/8 so that origin arithmetic is '
     'exact in float64; VGLVLS multiples of 1/64) x a window over a non-empty '
     'subset of ROW, COL, LAY, TSTEP (boundary files: LAY, TSTEP) in permuted '
-    'keyword order, each an int in [-n, n-1] or a slice with step None/1 '
+    'keyword order, each an int in [-n, n-1] (passed as Python int, '
+    'np.int64, np.int32 or np.intp, any mix over the dimensions) or a slice with step None/1 '
     'selecting >= 1 element with start/stop spelled as None, non-negative or '
     'negative.  Oracle (all exact, no tolerance): XORIG\' == XORIG + i0*XCELL '
     'and YORIG\' == YORIG + j0*YCELL with the source values read before the '
@@ -62,7 +63,11 @@ BUDGET = {'quick': dict(examples=4800, max_s=240),
 @st.composite
 def windows(draw, n):
     if draw(st.integers(0, 2)) == 0:
-        return ['int', draw(st.integers(-n, n - 1))]
+        # the integer is passed as a Python int or as a numpy integer
+        # scalar (what np.argmax / np.unravel_index return)
+        ity = draw(st.sampled_from(['py', 'py', 'i8', 'i4', 'intp']))
+        w = ['int', draw(st.integers(-n, n - 1))]
+        return w if ity == 'py' else w + [ity]
     a = draw(st.integers(0, n - 1))
     b = draw(st.integers(a + 1, n))
     form = draw(st.integers(0, 7))
@@ -140,7 +145,8 @@ EXHAUSTIVE_NOTE = (
     'states: synced for all of the above; in addition every single window '
     'in the states var-added(create), var-added(copy), no-tflag, every pair '
     'containing TSTEP in state no-tflag (quick), every pair in all three '
-    'states (thorough)')
+    'states (thorough); every ROW x COL pair of integers passed as numpy '
+    'integer scalars (3 type pairings)')
 
 
 def _all_windows(n):
@@ -170,6 +176,13 @@ def enumerate_cases(tier):
                 yield dict(file=fs, win=[[d] + w], prep='synced')
             for p in states:
                 yield dict(file=fs, win=[[d] + w], prep=p)
+    # every ROW x COL pair of integers given as numpy integer scalars
+    for t1, t2 in (('i8', 'i8'), ('i4', 'intp'), ('intp', 'i4')):
+        for i in range(-fs['ny'], fs['ny']):
+            for j in range(-fs['nx'], fs['nx']):
+                yield dict(file=fs, win=[['ROW', 'int', i, t1],
+                                         ['COL', 'int', j, t2]],
+                           prep='synced')
     for (d1, n1), (d2, n2) in itertools.combinations(dl, 2):
         for w1 in _all_windows(n1):
             for w2 in _all_windows(n2):
@@ -188,8 +201,13 @@ def finish(stats):
 
 
 # ------------------------------------------------------------------ oracle
-def to_sel(kind, val):
-    return int(val) if kind == 'int' else slice(*val)
+INT_TYPES = {'py': int, 'i8': np.int64, 'i4': np.int32, 'intp': np.intp}
+
+
+def to_sel(kind, val, ity='py'):
+    if kind == 'int':
+        return INT_TYPES[ity](val)
+    return slice(*val)
 
 
 def bounds(n, kind, val):
@@ -214,6 +232,11 @@ def check_case(case):
 
 def _check(case, fs, m, f, r):
     win = I_OD(case['win'])
+    ity = dict((w[0], w[3]) for w in case['win'] if len(w) > 3)
+    for d in sorted(ity):
+        r.label('npint:' + ity[d])
+    if 'ROW' in ity and 'COL' in ity:
+        r.label('npint:ROW+COL')
     r.label('route:' + fs['route'], 'ftype:%d' % fs['ftype'])
     prep = I.prep_kind(case.get('prep'))
     r.label('prep:' + prep)
@@ -283,7 +306,8 @@ def _check(case, fs, m, f, r):
     if src_tflag.shape != m.tflag.shape or not (src_tflag == m.tflag).all():
         # construction problem, not a windowing problem: C12's business
         r.label('source-tflag-differs-from-model')
-    kw = I_OD((d, to_sel(*win[d])) for d in win)
+    kw = I_OD((d, to_sel(win[d][0], win[d][1], ity.get(d, 'py')))
+              for d in win)
     ok, out = guard(r, 'slice-raises', lambda: f.sliceDimensions(**kw))
     if not ok:
         return r
@@ -371,7 +395,7 @@ def I_OD(pairs):
     import collections
     od = collections.OrderedDict()
     for p in pairs:
-        if len(p) == 3:
+        if len(p) >= 3:
             od[p[0]] = (p[1], p[2])
         else:
             od[p[0]] = p[1]
